@@ -36,6 +36,7 @@ type Engine struct {
 	specList []*FuncSpec
 	overlay  map[string][]byte
 	drift    []string
+	recSpec  map[*ssa.Function]bool
 
 	nodeAt     map[*ssa.Function]map[token.Pos]ast.Node
 	callOrd    map[*ssa.Function]map[ssa.Instruction]int
@@ -413,14 +414,20 @@ func (eng *Engine) genOverlay(p *packages.Package, cf *ContractFile, fset *token
 			loops := collectLoops(fi.decl)
 			for k, ls := range fs.Loops {
 				if k < 1 || k > len(loops) {
-					return nil, fmt.Errorf("%s:%d: %s has %d loops, contract names loop %d", cf.Path, fs.Line, fs.Name, len(loops), k)
+					g.eng.drift = append(g.eng.drift, fmt.Sprintf("%s:%d: %s has %d loops, contract names loop %d (its invariants dropped)", cf.Path, fs.Line, fs.Name, len(loops), k))
+					delete(fs.Loops, k)
+					continue
 				}
 				pos := loopBodyPos(loops[k-1])
+				var kept []Clause
 				for i := range ls.Invariants {
 					if err := emit(&ls.Invariants[i], fmt.Sprintf("inv%d", k), false, pos); err != nil {
-						return nil, err
+						g.eng.drift = append(g.eng.drift, fmt.Sprintf("%v (invariant %s of loop %d dropped)", err, ls.Invariants[i].Label, k))
+						continue
 					}
+					kept = append(kept, ls.Invariants[i])
 				}
+				ls.Invariants = kept
 				if ls.Decreases != nil {
 					cl := ls.Decreases
 					cl.WrapperName = fmt.Sprintf("%s_dec%d", base, k)
@@ -464,7 +471,8 @@ func (eng *Engine) genOverlay(p *packages.Package, cf *ContractFile, fset *token
 					pp := fset.Position(pos)
 					a.File, a.Off = pp.Filename, pp.Offset
 					if err := emit(&a.Clause, fmt.Sprintf("assert_return_%d", a.Ordinal), false, pos); err != nil {
-						return nil, err
+						g.eng.drift = append(g.eng.drift, fmt.Sprintf("%v (clause %s dropped)", err, a.Clause.Label))
+						a.Dead = true
 					}
 					continue
 				}
@@ -521,7 +529,8 @@ func (eng *Engine) genOverlay(p *packages.Package, cf *ContractFile, fset *token
 					})
 				}
 				if err := emit(&a.Clause, fmt.Sprintf("assert_%s_%d_%s", when, a.Ordinal, sanitizeIdent(a.Callee)), false, pos); err != nil {
-					return nil, err
+					g.eng.drift = append(g.eng.drift, fmt.Sprintf("%v (clause %s dropped)", err, a.Clause.Label))
+					a.Dead = true
 				}
 			}
 		}
@@ -878,6 +887,28 @@ func (eng *Engine) resolveSpecs() error {
 		}
 	}
 	return nil
+}
+
+// recursiveSpec: a function of the generated specification file that calls itself.
+func (eng *Engine) recursiveSpec(fn *ssa.Function) bool {
+	if v, ok := eng.recSpec[fn]; ok {
+		return v
+	}
+	res := false
+	if fn != nil && len(fn.Blocks) > 0 && fn.Pos() != token.NoPos && strings.HasSuffix(eng.fset.Position(fn.Pos()).Filename, "zz_verif_specs_gen.go") {
+		for _, b := range fn.Blocks {
+			for _, ins := range b.Instrs {
+				if c, ok := ins.(*ssa.Call); ok && c.Call.StaticCallee() == fn {
+					res = true
+				}
+			}
+		}
+	}
+	if eng.recSpec == nil {
+		eng.recSpec = map[*ssa.Function]bool{}
+	}
+	eng.recSpec[fn] = res
+	return res
 }
 
 func (eng *Engine) specFor(fn *ssa.Function) *FuncSpec {
